@@ -30,11 +30,9 @@ func New(config ...Config) fiber.Handler {
 			}
 		})
 
-		// Continue stack
-		err := c.Next()
-
-		// Encrypt response cookies
-		c.Response().Header.VisitAllCookie(func(key, _ []byte) {
+		// Encrypt response cookies when the stack returns - also when it unwinds because a handler panicked:
+		// the reply a recover middleware in front of this one then sends carries the cookies set so far
+		defer c.Response().Header.VisitAllCookie(func(key, _ []byte) {
 			keyString := string(key)
 			if !isDisabled(keyString, cfg.Except) {
 				cookieValue := fasthttp.Cookie{}
@@ -51,6 +49,7 @@ func New(config ...Config) fiber.Handler {
 			}
 		})
 
-		return err
+		// Continue stack
+		return c.Next()
 	}
 }
